@@ -332,6 +332,9 @@ func (g *G) Value(t reflect.Type, p P, depth int) reflect.Value {
 		g.extSize = false
 		b := rapid.SliceOfN(rapid.Byte(), int(n), int(n)).Draw(g.T, "osb")
 		v := reflect.New(t).Elem()
+		if n == 0 && g.intn(0, 1, "nil_octets") == 1 {
+			return v // the empty string as a nil slice
+		}
 		v.SetBytes(b)
 		g.budget -= len(b) / 16
 		return v
@@ -349,7 +352,13 @@ func (g *G) Value(t reflect.Type, p P, depth int) reflect.Value {
 	switch t.Kind() {
 	case reflect.Ptr:
 		v := reflect.New(t.Elem())
-		v.Elem().Set(g.Value(t.Elem(), p, depth))
+		e := g.Value(t.Elem(), p, depth)
+		if e.Kind() == reflect.Slice && e.IsNil() {
+			// a pointer to a nil slice and a nil pointer are the same text in the JSON form of a case (null);
+			// behind a pointer the empty value is always the allocated one
+			e = reflect.MakeSlice(t.Elem(), 0, 0)
+		}
+		v.Elem().Set(e)
 		return v
 	case reflect.Bool:
 		v := reflect.New(t).Elem()
@@ -421,6 +430,10 @@ func (g *G) Value(t reflect.Type, p P, depth int) reflect.Value {
 		}
 		ep := p
 		ep.SLB, ep.SUB, ep.SizeExt = nil, nil, false
+		if n == 0 && g.intn(0, 1, "nil_list") == 1 {
+			// the empty list as most Go code writes it: a nil slice (the zero value of the field), not an allocated one
+			return reflect.Zero(t)
+		}
 		v := reflect.MakeSlice(t, int(n), int(n))
 		for i := 0; i < int(n); i++ {
 			v.Index(i).Set(g.Value(t.Elem(), ep, depth+1))
